@@ -9,4 +9,5 @@ CONSTANTS
   TypesOnly = FALSE
   CallsOnly = FALSE
   Rich = TRUE
+  Inplace = TRUE
 CHECK_DEADLOCK FALSE
